@@ -9,3 +9,11 @@ Lemma cfg_text_constants :
   In [101%N; 112%N; 115%N; 105%N; 108%N; 111%N; 110%N] cfg_EPSILON_SYMBOLS /\ In [36%N] cfg_EPSILON_SYMBOLS /\
   cfg_SUBS_SUFFIX = [35%N; 83%N; 85%N; 66%N; 83%N; 35%N].
 Proof. cbn. tauto. Qed.
+
+(* the separators PDA/FST.to_networkx write into an edge label and the ones from_networkx splits on, regenerated from
+   pda/pda.py and fst/fst.py on every build, are the separators of Model.GraphLabels, in the same order *)
+From PFL Require Import Model.GraphLabels.
+Lemma label_separators_from_source :
+  pda_label_written = [sep_arrow; sep_slash] /\ pda_label_splits = [sep_arrow; sep_slash] /\
+  fst_label_written = [sep_arrow] /\ fst_label_splits = [sep_arrow].
+Proof. repeat split; reflexivity. Qed.
